@@ -23,8 +23,8 @@ import numpy as np
 from harness import common
 
 GEN_MODULES = ['select']
-MODEL_TARGETS = ['model/M_Select.vo', 'model/M_SelectNum.vo', 'spec/S_Select.vo']
-PROOF_TARGETS = ['proofs/P_Select.vo', 'proofs/P_SelectNum.vo']
+MODEL_TARGETS = ['model/M_Select.vo', 'model/M_SelectNum.vo', 'model/M_SelectTdm.vo', 'spec/S_Select.vo']
+PROOF_TARGETS = ['proofs/P_Select.vo', 'proofs/P_SelectNum.vo', 'proofs/P_SelectTdm.vo']
 LEVEL = 'proof'
 RULE = ('1..200 sources (incl. 127/128/129/200 around the 128-source batching boundary; poles, RA 0 / 2pi) x 0..2000 events '
         '(near sources, exactly on declination band edges, poles, RA wrap-around, none / all selected), opening angles in '
@@ -50,7 +50,7 @@ TRUSTED = [
 ]
 
 IMPORTS = ('From Coq Require Import ZArith List. Import ListNotations. Open Scope Z_scope.\n'
-           'From Sky Require Import Result PyList G_select M_Select.\n')
+           'From Sky Require Import Result PyList G_select M_Select M_SelectTdm.\n')
 
 PI = math.pi
 TWO_PI = 2 * math.pi
@@ -405,6 +405,10 @@ def canon_model(v, kind):
         return ['Err', v[1]]
     assert isinstance(v, tuple) and v[0] == 'Ok', v
     x = v[1]
+    if kind == 'tdmstate':
+        (evk, tb, nsrc, idx) = x
+        tb = [tuple(p) for p in tb[1]] if isinstance(tb, tuple) and tb[0] == 'Some' else None
+        return ['Ok', list(evk), tb, nsrc, bool(idx)]
     if kind == 'select':
         (ids, tbl, org) = x if len(x) == 3 else (x[0][0], x[0][1], x[1])
         return ['Ok', list(ids), [tuple(p) for p in tbl], list(org)]
@@ -843,7 +847,26 @@ def history_select(ctx, rng, c):
         bad('argument-modified', 'the events argument was modified by select_events', None, None)
 
 
-def history_tdm(ctx, rng, c):
+def trial_op_term(spec, srcs, evl):
+    """`TTrial` operation for the state-machine model: an event is represented by the rank of its
+    index-field value (unique), the criterion matrices get their columns permuted accordingly, so
+    that M_SelectTdm.zargsort on the keys is np.argsort on the index field"""
+    ne = len(evl)
+    inv = ints(np.argsort(np.array([e[4] for e in evl], dtype=np.float64)))      # inv[rank] = event
+    tau = [0] * ne
+    for r, j in enumerate(inv):
+        tau[j] = r
+    if spec is None:
+        mterm = '(@None (meth Z Z))'
+    else:
+        def pc(M):
+            return [[row[j] for j in inv] for row in M]
+        mats = [tuple(pc(M) for M in x) if isinstance(x, tuple) else pc(x) for x in model_mats(spec, srcs, evl)]
+        mterm = '(Some ' + meth_term(spec, mats) + ')'
+    return f'(TTrial (S:=Z) (E:=Z) {mterm} {zrange(len(srcs))} {common.zlist(tau)})', tau
+
+
+def history_tdm(ctx, rng, c, terms=None, checks=None):
     from skyllh.core.trialdata import TrialDataManager
     srcs = [tuple(x) for x in c['srcs']]
     evs1 = [list(e) for e in c['evs']]
@@ -859,14 +882,17 @@ def history_tdm(ctx, rng, c):
     m1, m2 = build_method(spec, shg1), build_method(spec2, shg2)
     trials = [(m1, spec, shg1, srcs, evs1), (None, None, shg1, srcs, evs2), (m2, spec2, shg2, srcs2, evs1),
               (None, None, shg2, srcs2, evs1), (m1, spec, shg1, srcs, evs1), (None, None, shg1, srcs, evs1)]
+    prefixes = (1, 3, 5) if ctx.thorough() else (1, 5)
     for sort0 in (True, False):
         tdm = TrialDataManager(index_field_name='time' if sort0 else None)
         sort = sort0
         kept = None
+        ops = []
         for i, (m, sp, shg, sr, evl) in enumerate(trials):
             if i == 3:                       # the index field is changed between trials
                 sort = not sort
                 tdm.index_field_name = 'time' if sort else None
+                ops.append(f'(TSetIndex (S:=Z) (E:=Z) {blit(sort)})')
             ev = mk_events(evl)
             before = snap(ev)
             try:
@@ -880,6 +906,16 @@ def history_tdm(ctx, rng, c):
                 ctx.violation(site, 'reused-manager-differs', f'trial {i} on a re-used TrialDataManager differs from a new one',
                               case=dict(case, trial=i, sort=sort), impl=got, model=want,
                               predicate='re-used TrialDataManager == new TrialDataManager')
+            # the state-machine model M_SelectTdm.tdm_run on the same history
+            if terms is not None and ctx.model_ok:
+                op, tau = trial_op_term(sp, sr, evl)
+                ops.append(op)
+                if i in prefixes:
+                    terms.append(f'tstate_out (tdm_run (S:=Z) (E:=Z) zargsort (tdm_new {blit(sort0)}) [' + '; '.join(ops) + '])')
+                    st = (['Ok', [tau[j] for j in got[1]], got[2], int(tdm.n_sources), bool(tdm.index_field_name is not None)]
+                          if got[0] == 'Ok' else got)
+                    checks.append(('tdmstate', site + '[state-machine]', dict(case, trial=i, sort0=sort0), st))
+                    ctx.count('history_tdm_model_states')
             if kept is not None and (kept[0].tobytes() != kept[2] or kept[1].tobytes() != kept[3]):
                 ctx.violation(site, 'result-overwritten', 'src_evt_idxs of the previous trial were changed by the next trial',
                               case=dict(case, trial=i, sort=sort))
@@ -893,10 +929,10 @@ def history_tdm(ctx, rng, c):
                               case=dict(case, trial=i, sort=sort))
 
 
-def history_probes(ctx, rng, c):
+def history_probes(ctx, rng, c, terms=None, checks=None):
     try:
         history_select(ctx, rng, c)
-        history_tdm(ctx, rng, c)
+        history_tdm(ctx, rng, c, terms, checks)
     except Exception as ex:  # noqa: BLE001
         ctx.violation(site_of(c['spec']) + '[history]', 'probe-raises-' + type(ex).__name__,
                       f'a history probe raised: {ex}', case={'srcs': c['srcs'], 'evs': c['evs'], 'spec': c['spec']})
@@ -979,7 +1015,7 @@ def compare(ctx, checks, vals):
         except Exception as ex:  # noqa: BLE001
             m = ['unparsed', repr(v)[:200], str(ex)]
         imp = list(impl)
-        if imp[0] == 'Ok':
+        if imp[0] == 'Ok' and imp[2] is not None:
             imp[2] = [tuple(p) for p in imp[2]]
         if m != imp:
             ctx.disagree(site, case, imp, m)
@@ -1047,7 +1083,7 @@ def run(ctx):
         one_case(ctx, c, terms, checks)
         if n_hist > 0 and len(c['srcs']) <= 12 and len(c['evs']) >= 1:
             n_hist -= 1
-            history_probes(ctx, rng, c)
+            history_probes(ctx, rng, c, terms, checks)
     for c in cases[-3:]:
         ctx.sample({'n_sources': len(c['srcs']), 'n_events': len(c['evs']), 'method': shape(c['spec']),
                     'sources': [list(s) for s in c['srcs'][:3]], 'events_ra_dec': [e[:2] for e in c['evs'][:3]]})
